@@ -108,6 +108,10 @@ func zzRunCommitConc(mode int, faults int, keys []string, concurrency int) *zzSc
 	cctx, cancel := context.WithCancel(context.Background())
 	defer cancel()
 	sc.cl.cancelCaller = cancel
+	// the region of the first two keys may split between them while Commit runs
+	sc.cl.splitKey = []byte(keys[1])
+	// a reader may pass over a region between two prewrite requests
+	sc.cl.orc = sc.s.orc.zzOracleCore
 	sc.err = txn.Commit(cctx)
 	sc.s.wg.Wait() // background secondaries commit / cleanup
 	return sc
